@@ -136,6 +136,13 @@ structure Conn where
   starved : Bool := false         -- the model asked for an environment result that was not supplied
   -- ghost
   accepted : Bytes := []
+  /-- the accepted blocks one by one, in processing order; `true` = the block came through the
+  functor queue (`send()` on another thread) -/
+  blocks : List (Bool × Bytes) := []
+  /-- blocks handed to `send()` on the loop thread that passed its state test, in call order -/
+  offeredL : List Bytes := []
+  /-- blocks handed to `send()` on other threads that passed its state test, in call order -/
+  offeredF : List Bytes := []
   wrote : Bytes := []
   discarded : Bool := false
   shutWr : Bool := false
@@ -192,13 +199,15 @@ def sendDirect (c : Conn) (data : Bytes) : WriteRes → Conn
     queueRemainder c2 data n false
   | .err e => queueRemainder c data 0 (decide (writeErrLogged e) && decide (writeErrFatal e))
 
-def accept (c : Conn) (data : Bytes) : Conn := { c with accepted := c.accepted ++ data }
+def accept (c : Conn) (data : Bytes) (queued : Bool) : Conn :=
+  { c with accepted := c.accepted ++ data, blocks := c.blocks ++ [(queued, data)] }
 
-def sendInLoop (c : Conn) (data : Bytes) : Conn :=
+/-- `queued`: the call comes out of the functor queue (ghost; the code does not know) -/
+def sendInLoop (c : Conn) (data : Bytes) (queued : Bool) : Conn :=
   if sendGivesUp c.st then emit c (.note "disconnected, give up writing")
   else if directWrite c.ch.evWrite c.outBuf.length then
-    sendDirect (emit (popWrite (accept c data)) (.sysWrite data.length (peekWrite c))) data (peekWrite c)
-  else queueRemainder (accept c data) data 0 false
+    sendDirect (emit (popWrite (accept c data queued)) (.sysWrite data.length (peekWrite c))) data (peekWrite c)
+  else queueRemainder (accept c data queued) data 0 false
 
 def shutdownInLoop (c : Conn) : Conn :=
   if shutdownNow c.ch.evWrite then emit { c with shutWr := true } .sysShutdownWr else c
@@ -221,7 +230,8 @@ inside one) or on another thread -/
 def act (c : Conn) (foreign : Bool) : Act → Conn
   | .send d =>
     if sendAcceptsPiece c.st then
-      (if foreign then enqueue c (.sendInLoop d) else sendInLoop c d)   -- explicit isInLoopThread() test
+      (if foreign then enqueue { c with offeredF := c.offeredF ++ [d] } (.sendInLoop d)
+       else sendInLoop { c with offeredL := c.offeredL ++ [d] } d false)   -- explicit isInLoopThread() test
     else c
   | .shutdown =>
     if shutdownAccepts c.st then
@@ -339,7 +349,7 @@ def runTask (c : Conn) (t : Task) : Conn :=
     | _ => emit { c with dead := true } (.uaf "functor with a raw pointer ran after destruction")
   else
   match t with
-  | .sendInLoop d => sendInLoop c d
+  | .sendInLoop d => sendInLoop c d true
   | .shutdownInLoop => shutdownInLoop c
   | .drainShutdownInLoop => shutdownInLoop c
   | .forceCloseInLoop => if forceCloseInLoopActs c.st then handleClose c else c
